@@ -71,6 +71,13 @@ def run(repo, rep):
     rule_pairing(repo, rep)
     rule_round5(repo, rep)
     rule_no_tensor_rename(repo, rep)
+    rule_folded_constant_dtype(repo, rep)
+    from .shared import binding_stem_lint
+
+    rep.clause("C11-n", "locals named after one side of an operator (ifm_* / ofm_*) in the rewrites that decide whether a memory-only operator is bypassed or copied are read from that side "
+               "(a CPU producer of the IFM must keep its output tensor)")
+    if binding_stem_lint(repo, rep, "C11-n", ["graph_optimiser_util"]) < 3:
+        raise AnalysisError("binding stems in graph_optimiser_util: fewer than 3 found")
     rule_rewrites_of_unplaced_operators(repo, rep)
     rule_overwritten_options(repo, rep)
     rule_quant_record_kept(repo, rep)
@@ -916,32 +923,48 @@ def rule_quant_record_kept(repo, rep):
 
 
 def rule_rewrites_of_unplaced_operators(repo, rep, rule="C11-m"):
-    """(m) passes run with rewrite_unsupported=True are applied to operators whatever their placement. A rewrite in such a pass may re-wire or
-    re-attribute operators only after it has established that the result is supported: every mutation (set_input_tensor, set_output_tensor,
-    attrs.update / attrs[...] =) is preceded by a support test whose failing branch returns without it."""
-    rep.clause(rule, "a rewrite that is applied to operators regardless of their placement (rewrite_unsupported=True) decides whether the merged operator is supported before it re-wires anything: "
-               "an operator that ends up on the CPU is written with its own operands, options and neighbours")
+    """(m) passes run with rewrite_unsupported=True (explicitly, or by the default of rewrite_graph_pre_order) are applied to operators
+    whatever their placement. A rewrite in such a pass may change an operator (type, inputs, outputs, attributes, wiring) only where it has
+    established that the operator is, or the merged result will be, on the NPU: after a support test whose failing branch returns, under a
+    `run_on_npu` test, or under a test of a marker that only NPU rewrites set (reviewed)."""
+    rep.clause(rule, "a rewrite that is applied to operators regardless of their placement (rewrite_unsupported=True, also by default) changes nothing of an operator before it has established that the operator "
+               "is / will be on the NPU: an operator that ends up on the CPU is written with its own type, operands, options and neighbours")
     go = repo.mod("tflite_graph_optimiser")
+    rg = repo.mod("rewrite_graph").func("rewrite_graph_pre_order")
+    defaults = dict(zip([a.arg for a in rg.args.args][-len(rg.args.defaults):], rg.args.defaults)) if rg.args.defaults else {}
+    dflt = defaults.get("rewrite_unsupported")
+    default_true = isinstance(dflt, ast.Constant) and dflt.value is True
     tg = go.func("tflite_optimise_graph")
+    lists = {st.targets[0].id: st.value for st in ast.walk(tg) if isinstance(st, ast.Assign) and isinstance(st.targets[0], ast.Name) and isinstance(st.value, ast.List)}
     names = []
     for c in calls_in(tg, "rewrite_graph_pre_order"):
         kw = {k.arg: k.value for k in c.keywords}
-        ru = kw.get("rewrite_unsupported")
-        if not (isinstance(ru, ast.Constant) and ru.value is True):
+        ru = kw.get("rewrite_unsupported", c.args[5] if len(c.args) > 5 else None)
+        applies = (isinstance(ru, ast.Constant) and ru.value is True) or (ru is None and default_true)
+        if not applies:
             continue
-        for a in c.args:
-            if isinstance(a, ast.List):
-                names += [e.id for e in a.elts if isinstance(e, ast.Name)]
-    if len(names) < 2:
+        oplist = c.args[4] if len(c.args) > 4 else kw.get("op_rewrite_list")
+        if isinstance(oplist, ast.Name):
+            oplist = lists.get(oplist.id)
+        if isinstance(oplist, ast.List):
+            names += [e.id for e in oplist.elts if isinstance(e, ast.Name)]
+    if len(names) < 4:
         raise AnalysisError(f"passes with rewrite_unsupported=True: {names}")
     MUT = ("set_input_tensor", "set_output_tensor", "add_input_tensor")
-    for nm in names:
-        fn = go.func(nm)
+    MARKERS = {"is_nop": "set by convert_to_lut / create_*_nop for operators created on the NPU only"}
+    for nm in sorted(set(names)):
+        fn = go.functions.get(nm) or repo.mod("graph_optimiser_util").functions.get(nm)
+        if fn is None:
+            raise AnalysisError(f"rewrite {nm} not found")
+        mod_ = go if nm in go.functions else repo.mod("graph_optimiser_util")
+        p0 = fn.args.args[0].arg if fn.args.args else "op"
         muts = [c for c in walk_no_nested(fn) if isinstance(c, ast.Call) and isinstance(c.func, ast.Attribute) and (c.func.attr in MUT or (c.func.attr == "update" and str(norm(c.func.value)).endswith(".attrs")))]
-        muts += [st for st in walk_no_nested(fn) if isinstance(st, ast.Assign) and isinstance(st.targets[0], ast.Subscript) and str(norm(st.targets[0].value)).endswith(".attrs")]
-        # a trial copy (`x = <op>.clone(...)`) is not part of the graph: mutations of it are free
+        muts += [st for st in walk_no_nested(fn) if isinstance(st, ast.Assign) and ((isinstance(st.targets[0], ast.Subscript) and str(norm(st.targets[0].value)).endswith(".attrs"))
+                                                                                     or (isinstance(st.targets[0], ast.Attribute) and st.targets[0].attr in ("type", "inputs", "outputs", "attrs") and isinstance(st.targets[0].value, ast.Name)))]
         trial = {st.targets[0].id for st in walk_no_nested(fn) if isinstance(st, ast.Assign) and isinstance(st.targets[0], ast.Name) and isinstance(st.value, ast.Call) and isinstance(st.value.func, ast.Attribute)
                  and st.value.func.attr == "clone"}
+        fresh = {st.targets[0].id for st in walk_no_nested(fn) if isinstance(st, ast.Assign) and isinstance(st.targets[0], ast.Name) and isinstance(st.value, ast.Call)
+                 and ((call_name(st.value) or "").split(".")[-1] in ("Operation",) or (call_name(st.value) or "").startswith("create_"))}
 
         def receiver(x):
             e = x.func.value if isinstance(x, ast.Call) else x.targets[0].value
@@ -949,19 +972,60 @@ def rule_rewrites_of_unplaced_operators(repo, rep, rule="C11-m"):
                 e = e.value
             return e.id if isinstance(e, ast.Name) else None
 
-        muts = [x for x in muts if receiver(x) not in trial]
-        # support tests: `if not <...>is_operator_supported(...)` (possibly through a local) with a returning body
+        muts = [x for x in muts if receiver(x) not in trial | fresh]
         sup_locals = {st.targets[0].id for st in walk_no_nested(fn) if isinstance(st, ast.Assign) and isinstance(st.targets[0], ast.Name) and "is_operator_supported(" in str(norm(st.value))}
         guards = []
         for i_ in walk_no_nested(fn):
             if isinstance(i_, ast.If) and i_.body and isinstance(i_.body[-1], ast.Return):
                 t = str(norm(i_.test))
-                if ("is_operator_supported(" in t or any(t in (f"not {l_}", f"{l_} is False", f"{l_} == False") for l_ in sup_locals)) and t.startswith("not "):
+                neg_support = t.startswith("not ") and ("is_operator_supported(" in t or any(t in (f"not {l_}",) for l_ in sup_locals))
+                neg_npu = re.search(r"not \w+[.]run_on_npu", t) is not None
+                neg_marker = any(f"not {p0}.attrs.get('{mk}'" in t.replace('"', "'") for mk in MARKERS)
+                if neg_support or neg_npu or neg_marker:
                     guards.append(i_)
         first_guard = min((g.lineno for g in guards), default=None)
-        early = [x for x in muts if first_guard is None or x.lineno < first_guard]
-        rep.check(not early, rule, f"ethosu/vela/tflite_graph_optimiser.py:{nm}", f"every re-wiring of `{nm}` follows a support test that returns on failure ({len(muts)} mutations)",
-                  (f"`{str(norm(early[0]))[:70]}` is done " + ("before" if first_guard else "without") + " any `if not ...is_operator_supported(...): return`: the operators are merged first and the verdict only sets "
-                   "run_on_npu, so a merged operator that is rejected stays merged on the CPU (demonstrated: SPACE_TO_BATCH_ND -> CONV_2D stride_h 4 -> BATCH_TO_SPACE_ND is written as a single CPU CONV_2D "
-                   "[1,8,8,4] -> [1,2,8,4]; DEQUANTIZE -> EXP -> QUANTIZE on uint8 aborts in convert_ops_to_lut)") if early else "")
-    rep.floor(rule, 2)
+
+        def under_npu_test(x):
+            cur = x
+            while cur is not fn and cur is not None:
+                pp = mod_.parents.get(cur)
+                if isinstance(pp, ast.If) and cur in pp.body and re.search(r"\b\w+[.]run_on_npu\b", str(norm(pp.test))) and "not " + str(norm(pp.test)) != str(norm(pp.test)):
+                    tt = str(norm(pp.test))
+                    if not re.search(r"not \w+[.]run_on_npu", tt):
+                        return True
+                cur = pp
+            return False
+
+        early = [x for x in muts if (first_guard is None or x.lineno < first_guard) and not under_npu_test(x)]
+        rep.check(not early, rule, f"{mod_.rel}:{nm}", f"every change `{nm}` makes to an operator follows a support / run_on_npu test ({len(muts)} mutations)",
+                  (f"`{str(norm(early[0]))[:70]}` is done " + ("before" if first_guard else "without") + " any test that the operator is (or the merged operator will be) on the NPU: the pass applies it to "
+                   "CPU operators as well (demonstrated: SPACE_TO_BATCH_ND -> CONV_2D stride_h 4 -> BATCH_TO_SPACE_ND written as one CPU CONV_2D; DEQUANTIZE -> EXP -> QUANTIZE on uint8 aborts; a float32 SPLIT "
+                   "with one output vanishes from the output model when the pass that holds convert_nop_split_to_identity is applied to unsupported operators)") if early else "")
+    rep.floor(rule, 4)
+
+
+def rule_folded_constant_dtype(repo, rep):
+    """(o) the values stored into an existing tensor by compile-time folding (`<t>.values = np.array(...)`) get the tensor's element type
+    explicitly: the writer emits the array's bytes as they are, and np.array() of Python ints / np.int32 dimensions picks int64 / int32 by
+    itself whatever the tensor is declared as."""
+    rep.clause("C11-o", "values stored into a tensor by compile-time folding are created with the tensor's own element type (np.array(..., <t>.dtype.as_numpy_type()))")
+    n = 0
+    for mn in ("tflite_graph_optimiser", "graph_optimiser_util"):
+        m = repo.mod(mn)
+        for q, fn in m.functions.items():
+            if "." in q and q.split(".")[0] in m.functions:
+                continue
+            for st in walk_no_nested(fn):
+                if not (isinstance(st, ast.Assign) and isinstance(st.targets[0], ast.Attribute) and st.targets[0].attr == "values" and isinstance(st.value, ast.Call)
+                        and (call_name(st.value) or "") in ("np.array", "numpy.array", "np.asarray", "numpy.asarray")):
+                    continue
+                tens = str(norm(st.targets[0].value))
+                n += 1
+                args = list(st.value.args[1:]) + [k.value for k in st.value.keywords if k.arg == "dtype"]
+                typed = any(f"{tens}.dtype" in str(norm(a)) for a in args)
+                rep.check(typed, "C11-o", f"{m.rel}:{q}", f"`{str(norm(st))[:80]}` creates the data with `{tens}`'s element type",
+                          f"no dtype taken from `{tens}`: the array's own type decides how many bytes are written (demonstrated: SHAPE with out_type INT64 consumed by a CPU operator is folded to 16 bytes "
+                          "in an INT64[4] tensor; Vela's own reader cannot read the output)")
+    if n < 3:
+        raise AnalysisError(f"folded constant stores: {n} found")
+    rep.floor("C11-o", 3)
